@@ -7,7 +7,7 @@
      Valid                          Proofs/NameValid.v   (63 / 255 / empty-label-last limits)
    All theorems quantify over arbitrary label lists (any octets, any relativity). *)
 From DV Require Import Base.Prelude Model.NameM.
-From DV Require Import Proofs.NameOrder Proofs.NameValid Proofs.NameRel Proofs.NameSucc.
+From DV Require Import Proofs.NameOrder Proofs.NameValid Proofs.NameRel Proofs.NameSucc Proofs.NameWire.
 Open Scope Z_scope.
 
 (* ---- the order is exactly RFC 4034 6.1 (relative names first) ---- *)
@@ -58,6 +58,11 @@ Print Assumptions hash_congr.
 Theorem eq_hash : forall a b : name, order a b = 0 -> name_hash a = name_hash b.
 Proof. exact NameOrder.eq_hash. Qed.
 Print Assumptions eq_hash.
+
+(* model note: __hash__ computes h += (h << 3) + c, the model writes h + h * 8 + c *)
+Theorem hash_shift_equiv : forall h c : Z, h + (Z.shiftl h 3 + c) = h + (h * 8) + c.
+Proof. exact NameWire.hash_shift_equiv. Qed.
+Print Assumptions hash_shift_equiv.
 
 (* ---- relation and common-label count ---- *)
 Theorem relation_spec : forall a b : name,
